@@ -288,6 +288,16 @@ func TestVerif_C39_Ids(t *testing.T) {
 		js := `["sha256:` + hx + `","sha256:` + c39MixedHex(r, 32) + `"]`
 		subst(js, 9, func(s string) { run("dlist", verifh.Hex([]byte(s))); tr.Count("dlist_byte_subst", 1) })
 	}
+	// (a2) exact LENGTHS: every length 0..90 of a hexadecimal string into every parser (the valid ones are 40 and 64)
+	for n := 0; n <= 90; n++ {
+		hx := c39MixedHex(r, 64)[:n]
+		run("digest", verifh.Str("sha256:"+hx))
+		run("digesthex", verifh.Str(hx))
+		run("infohash", verifh.Str(hx))
+		run("peerid", verifh.Str(hx))
+		run("dlist", verifh.Hex([]byte(`["sha256:`+hx+`"]`)))
+		tr.Count("exact_lengths", 5)
+	}
 	// (b) random valid values and random malformed strings
 	for i := 0; i < verifh.Scale(600, 60000); i++ {
 		hx := c39MixedHex(r, 32)
